@@ -314,9 +314,9 @@ def r3_alloc(ctx, F, table):
                     cf = request_fields(cond)
                     if cf & flds or (not flds and cf):
                         # Gt/Ge(size, bound) must be on the false edge; Lt/Le on the true edge
+                        # guards are in normal form: always `Lt/Le(a, b)` on the true edge; an upper bound has the request value on the left
                         lhs_has = bool(request_fields(cond[2]))
-                        upper = (cond[1] in ("Gt", "Ge") and lhs_has and lab == 0) or (cond[1] in ("Lt", "Le") and lhs_has and lab != 0) \
-                            or (cond[1] in ("Lt", "Le") and not lhs_has and lab == 0) or (cond[1] in ("Gt", "Ge") and not lhs_has and lab != 0)
+                        upper = cond[1] in ("Lt", "Le") and lhs_has and lab != 0
                         if upper:
                             found = cond
             ctx.check("R3-bounded-alloc", key, found is not None,
@@ -382,10 +382,31 @@ def in_async(F, b):
     return False
 
 
+def module_of(key):
+    """Module path of a function key: everything before the first impl/closure segment
+    (`transport::fusedev::<...>::write_from::{closure#0}` -> `transport::fusedev`)."""
+    head = key.split("::<", 1)[0] if "::<" in key else key
+    if head.startswith("<"):
+        # `<T as Trait>::f` at crate root level
+        return ""
+    parts = head.split("::")
+    # a free function: drop its own name (and closure segments)
+    if "::<" not in key:
+        while parts and parts[-1].startswith("{"):
+            parts.pop()
+        parts = parts[:-1]
+    return "::".join(parts)
+
+
 def r4_panics(ctx, F, table):
+    """Potential panic sites per (module, kind) must not exceed the reviewed inventory. The inventory lists the sites per
+    function with the reason each cannot fire on request data; the comparison is per module so that moving code between
+    functions of one module (extract/inline a helper) is not reported, while any additional site is."""
     rows = table["panic_sites"]
     total = 0
     gen = {}
+    have = {}
+    where = {}
     for k, b in sorted(F.fns.items()):
         if not in_scope(k) or "async_io" in k or "async" in b.name or in_async(F, b):
             continue
@@ -398,25 +419,38 @@ def r4_panics(ctx, F, table):
         for (kind, line) in sites:
             byk.setdefault(kind, []).append(line)
         gen[k] = {kind: len(ls) for kind, ls in byk.items()}
-        row = rows.get(k, {})
-        for kind, ls in sorted(byk.items()):
+        m = module_of(k)
+        for kind, ls in byk.items():
             total += len(ls)
-            allowed = row.get(kind, {}).get("n", 0) if isinstance(row.get(kind), dict) else row.get(kind, 0)
-            ctx.check("R4-panic-inventory", "%s/%s" % (k, kind), len(ls) <= allowed,
-                      "%d potential panic site(s) `%s` in %s (lines %s), %d reviewed: a request-path panic site that is not in the reviewed inventory"
-                      % (len(ls), kind, k, ls, allowed), loc="%s:%s" % (b.file, ls[-1]),
-                      detail=str(row.get("why", "")))
+            have[(m, kind)] = have.get((m, kind), 0) + len(ls)
+            where.setdefault((m, kind), []).append("%s (lines %s%s)" % (k.rsplit("::", 1)[-1] if "::<" not in k else k.split(">::", 1)[-1], ls,
+                                                                         "" if k in rows and kind in rows[k] else ", NOT in the inventory"))
+    allowed = {}
+    for k, row in rows.items():
+        m = module_of(k)
+        for kind, n in row.items():
+            if kind == "why":
+                continue
+            n = n.get("n", 0) if isinstance(n, dict) else n
+            allowed[(m, kind)] = allowed.get((m, kind), 0) + n
+    for (m, kind), n in sorted(have.items()):
+        ctx.check("R4-panic-inventory", "%s/%s" % (m or "crate", kind), n <= allowed.get((m, kind), 0),
+                  "%d potential panic site(s) `%s` in module %s, %d reviewed: a request-path panic site that is not in the reviewed inventory; sites: %s"
+                  % (n, kind, m or "crate", allowed.get((m, kind), 0), "; ".join(where[(m, kind)])[:600]), loc=m, detail="%d <= %d" % (n, allowed.get((m, kind), 0)))
     if os.environ.get("FBR_GEN"):
         print("PANIC", json.dumps(gen, indent=1))
     ctx.extra["panic_sites_inventoried"] = total
-    ctx.floor("R4-panic-inventory", 50)
+    ctx.floor("R4-panic-inventory", 20)
 
 
 # ------------------------------------------------------------------ R5
 
 def r5_unsafe(ctx, F, table):
+    """Like R4: per (module, operation) counts against the reviewed inventory."""
     rows = table["unsafe_ops"]
     gen = {}
+    have_u = {}
+    where_u = {}
     for k, b in sorted(F.fns.items()):
         if not in_scope(k) or "async" in k.rsplit("::", 1)[-1] or "async_io" in k:
             continue
@@ -441,11 +475,19 @@ def r5_unsafe(ctx, F, table):
         for o in ops:
             cnt[o] = cnt.get(o, 0) + 1
         gen[k] = cnt
-        row = rows.get(k, {})
-        for o, n in sorted(cnt.items()):
-            ctx.check("R5-unsafe-inventory", "%s/%s" % (k, o), n <= row.get(o, 0),
-                      "%s performs %d unsafe `%s` operation(s), %d reviewed: new unsafe operation on the request path" % (k, n, o, row.get(o, 0)),
-                      loc=b.loc())
+        m = module_of(k)
+        for o, n in cnt.items():
+            have_u[(m, o)] = have_u.get((m, o), 0) + n
+            where_u.setdefault((m, o), []).append(k.split(">::", 1)[-1] + ("" if o in rows.get(k, {}) else " (NOT in the inventory)"))
+    allowed_u = {}
+    for k, row in rows.items():
+        for o, n in row.items():
+            if o != "why":
+                allowed_u[(module_of(k), o)] = allowed_u.get((module_of(k), o), 0) + n
+    for (m, o), n in sorted(have_u.items()):
+        ctx.check("R5-unsafe-inventory", "%s/%s" % (m or "crate", o), n <= allowed_u.get((m, o), 0),
+                  "module %s performs %d unsafe `%s` operation(s) on the request path, %d reviewed; in: %s" % (m or "crate", n, o, allowed_u.get((m, o), 0), "; ".join(where_u[(m, o)])[:500]),
+                  loc=m, detail="%d <= %d" % (n, allowed_u.get((m, o), 0)))
     if os.environ.get("FBR_GEN"):
         print("UNSAFE", json.dumps(gen, indent=1))
     # raw copies: length = min of the two slices' lengths
@@ -553,26 +595,49 @@ def r7_frame(ctx, F):
         return
     vf.NOCAST[0] = True
     try:
-        roots = []
-        for n in ("data2", "data3"):
-            e = vf.def_value(v, b, n)
-            if e is not None:
-                roots.append((e, n))
-        f = {k: vf.render(x, b, roots, short=True, vfx=v) for (k, x) in hdr[3]}
+        f = {k: vf.render(x, b, short=True, vfx=v) for (k, x) in hdr[3]}
+        # header.len = size_of<OutHeader> + len(<slice of `out`>) + len(<slice of `data`>), whatever the locals are called
+        lens = []
+        consts = []
+
+        def terms(e):
+            if e[0] == "CAST":
+                return terms(e[1])
+            if e[0] == "B" and e[1] == "Add":
+                return terms(e[2]) + terms(e[3])
+            return [e]
+        for t in terms(dict(hdr[3])["len"]):
+            tt = vf.render(t, b, short=True, vfx=v)
+            if tt == "size_of<OutHeader>":
+                consts.append(tt)
+            else:
+                deps = {x[1] for x in vf.walk(t) if x[0] == "P"}
+                lens.append((tt.startswith("impl [T]::len("), tuple(sorted(b.local_name(i) for i in deps))))
     finally:
         vf.NOCAST[0] = False
-    want = {"len": "Add(Add(impl [T]::len(data2), size_of<OutHeader>), impl [T]::len(data3))", "error": "0", "unique": "self.in_header.unique"}
-    for k, w in want.items():
+    ok = consts == ["size_of<OutHeader>"] and sorted(lens) == [(True, ("data",)), (True, ("out",))]
+    ctx.check("R7-frame", "reply_ok/len", ok, "reply_ok header: len is `%s`, required size_of<OutHeader> + len(bytes of out) + len(data)" % f.get("len"), loc=b.loc(), detail=f.get("len"))
+    for k, w in (("error", "0"), ("unique", "self.in_header.unique")):
         ctx.check("R7-frame", "reply_ok/" + k, f.get(k) == w, "reply_ok header: %s is `%s`, required `%s`" % (k, f.get(k), w), loc=b.loc(), detail=f.get(k))
-    # the slices written are exactly header, data2, data3 in this order
+    # the slices written are exactly header, bytes of `out`, `data` in this order
     ws = [c for c in live_calls(b) if c.trait == "std::io::Write" and c.name == "write_vectored"]
     for c in ws:
         a = v.call_args(c)[1]
-        t = vf.render(a, b, roots + [(hdr, "header")], short=True, vfx=v)
-        order = [x for x in ("header", "data2", "data3") if x in t]
-        pos = [t.index(x) for x in order]
-        ctx.check("R7-frame", "reply_ok/order@%s" % "+".join(order), pos == sorted(pos) and order and order[0] == "header",
-                  "reply_ok writes its parts in the order %s" % order, loc=c.loc(), detail=t[:160])
+        elems = None
+        for x in vf.walk(a):
+            if x[0] == "ARR":
+                elems = x[1]
+                break
+        order = []
+        for el in (elems or []):
+            if any(y == hdr for y in vf.walk(el)):
+                order.append("header")
+            else:
+                deps = {b.local_name(y[1]) for y in vf.walk(el) if y[0] == "P"} - {"self"}
+                order.append("+".join(sorted(deps)) or "?")
+        allowed = (["header", "data"], ["header", "out"], ["header", "out", "data"])
+        ctx.check("R7-frame", "reply_ok/order@%s" % "+".join(order), order in allowed,
+                  "reply_ok writes its parts in the order %s; required header, bytes of out, data" % order, loc=c.loc(), detail=str(order))
 
 
 def r9_remap(ctx, F):
